@@ -180,3 +180,43 @@ def ensure_model_built(target_vo):
     with CoqLock():
         ok, out, cmd = make(target_vo)
     return ok, out
+
+
+def coqchk(prop, timeout=1500):
+    """Independent re-check of the compiled property file and everything it depends on (thorough tier)."""
+    cmd = ["timeout", str(timeout), "coqchk", "-silent", "-o", "-Q", os.path.join(COQ, "theories"), "CV",
+           f"CV.Properties.{prop}"]
+    with CoqLock():
+        p = subprocess.run(cmd, capture_output=True, text=True, cwd=COQ)
+    out = p.stdout + p.stderr
+    summary = out[out.find("CONTEXT SUMMARY"):] if "CONTEXT SUMMARY" in out else out[-1500:]
+    axioms = re.search(r"\* Axioms:(.*?)\n\s*\n\* Constants/Inductives relying on type-in-type", summary, re.S)
+    ax = " ".join(axioms.group(1).split()) if axioms else "?"
+    clean = (p.returncode == 0 and ax == "<none>" and summary.count("<none>") >= 4)
+    return dict(ok=clean, returncode=p.returncode, axioms=ax, summary=" ".join(summary.split())[:1200], cmd=" ".join(cmd))
+
+
+def fingerprints(anchors):
+    """sha1 of the AST of each anchored function/class of the CURRENT source: {"mod:qualname": hash}."""
+    import ast, importlib, inspect, textwrap
+    out = {}
+    for mod, qual in anchors:
+        key = f"{mod}:{qual}"
+        try:
+            o = importlib.import_module(mod)
+            for part in qual.split("."):
+                o = getattr(o, part)
+            if isinstance(o, property):
+                src = "".join(inspect.getsource(f) for f in (o.fget, o.fset) if f is not None)
+            elif inspect.isfunction(o) or inspect.isclass(o) or inspect.ismethod(o):
+                src = inspect.getsource(o)
+            else:
+                src = repr(o)
+            try:
+                src = ast.dump(ast.parse(textwrap.dedent(src)))
+            except SyntaxError:
+                pass
+            out[key] = hashlib.sha1(src.encode()).hexdigest()[:16]
+        except Exception as e:  # missing anchor = changed code
+            out[key] = f"missing:{type(e).__name__}"
+    return out
